@@ -34,7 +34,7 @@ def image_domain(dom, a, t):
 
 
 def run(case, rewards=None):
-    out = {"points": [], "rewards": [], "last": None, "error": None, "splits": 0}
+    out = {"points": [], "rewards": [], "last": None, "error": None, "splits": 0, "last_error": None}
     c = case
     if rewards is not None:
         c = dict(case)
@@ -46,8 +46,11 @@ def run(case, rewards=None):
                 pt, r = s.step()
                 out["points"].append(list(pt) if isinstance(pt, list) else pt)
                 out["rewards"].append(float(r))
-            lp = s.last_point()
-            out["last"] = list(lp) if isinstance(lp, list) else lp
+            try:
+                lp = s.last_point()
+                out["last"] = list(lp) if isinstance(lp, list) else lp
+            except Exception as e:  # noqa: BLE001 - e.g. open finding D11: compared as an outcome
+                out["last_error"] = type(e).__name__
         except Exception as e:  # noqa: BLE001
             out["error"] = "%s@%d" % (type(e).__name__, len(out["points"]) + 1)
         out["splits"] = sum(1 for ev in s.split_log if ev["round"] >= 1)
@@ -90,6 +93,9 @@ def check_case(case):
             if not ok:
                 return Outcome(violation={"clause": "equivariance", "msg": "%s coordinate %d: base %r maps to %r, image run gave %r (a=%r, t=%r)" % (
                     "recommendation" if rnd == case["T"] + 1 else "round %d" % rnd, k, xi, want, yi, a, t), "round": rnd}, classes=classes)
+    if r1.get("last_error") != r2.get("last_error"):
+        return Outcome(violation={"clause": "equivariance", "msg": "get_last_point: %r on the base box, %r on the image" % (
+            r1.get("last_error"), r2.get("last_error")), "round": case["T"] + 1}, classes=classes)
     if r1["error"] != r2["error"] or len(r1["points"]) != len(r2["points"]):
         return Outcome(violation={"clause": "equivariance", "msg": "runs end differently: %r after %d rounds vs %r after %d" % (
             r1["error"], len(r1["points"]), r2["error"], len(r2["points"])), "round": n + 1}, classes=classes)
